@@ -860,6 +860,12 @@ impl<'s, const M: usize> Exec<'s, M> {
         let was_reset = self.just_reset;
         self.op_reqs.clear();
         self.op_place = None;
+        if let Some(ua) = self.script.uniform {
+            if self.uniform_ok && !crate::w1_gen::conforms_to_uniform(op, ua) {
+                self.stats.hit("uniform_premise_broken_until_reset");
+                self.uniform_ok = false;
+            }
+        }
         match op {
             Op::Val { fl, ty, seed } => with_ty!(*ty, T => self.op_val::<T>(*fl, *seed)),
             Op::Layout { try_, size, align, seed } => self.op_layout(*try_, *size, *align, *seed),
@@ -918,6 +924,32 @@ impl<'s, const M: usize> Exec<'s, M> {
         }
         if was_reset && !matches!(op, Op::Reset) {
             self.just_reset = false;
+        }
+        // C10 in focus: "together containing every live block of non-zero size exactly once" is
+        // checked after every step, not only when the script happens to iterate - an operation that
+        // silently moves the bump pointer over a live block (a deallocate that gives back too much)
+        // is otherwise only seen once a later allocation has already overlapped the block
+        if self.opts.focus == Some("C10")
+            && self.viol.is_empty()
+            && self.bump.is_some()
+            && !self.in_handover
+            && !self.blocks.is_empty()
+            && !matches!(op, Op::IterChunks | Op::HandOver { .. })
+        {
+            if let Some((safe, _)) = self.iter_items() {
+                self.stats.hit("iter_chunks_after_step");
+                let mut missing = None;
+                for (&a, b) in &self.blocks {
+                    let c = safe.iter().filter(|&&(p, n)| a >= p && a + b.size <= p + n).count();
+                    if c != 1 {
+                        missing = Some((b.size, c));
+                        break;
+                    }
+                }
+                if let Some((size, c)) = missing {
+                    self.violate("C10", "live-block-not-in-exactly-one-item", "", format!("{}-byte block in {} items", size, c));
+                }
+            }
         }
         self.next_slot = None;
         self.fit_override = None;
